@@ -14,11 +14,11 @@ CLAIMED = {
                 note="Trusts SimFS to implement the BufferedReader contract (full reads before EOF), the stdlib gzip module, and read() of the same bytes as the reference (C02 checks that reference against the format model).",
                 tech=TECH + "chunk-size sweep + per-call varying k + default-chunk knob + interleaved readers + one-shot EIO; oracle chunked==whole and byte conservation"),
     "C02": dict(engine="iosim", cat="exploration", ref="§4 C02",
-                text="Seeded search: generated well-formed files (per-format grammar incl. non-canonical spellings, '.' placeholders, CRLF, missing final newline, gzip members) are parsed whole and under sampled / swept chunk schedules; every column of every batch is compared with the value an independent spec-level model assigns to the text. Sampling over bounded files (<= 14 records).",
+                text="Seeded search: generated well-formed files (per-format grammar incl. non-canonical spellings, '.' placeholders, CRLF, missing final newline, gzip members) are parsed whole and under sampled / swept chunk schedules; every column of every batch is compared with the value an independent spec-level model assigns to the text. 19 text formats (BED3/6/12, bedGraph, narrowPeak, chrom.sizes, GTF, GFF3, wig-style, SAM, VCF plain / typed INFO / genotypes, GFA, pairs, two-line and wrapped FASTA, FASTQ). A quarter of the runs parse a differently shaped file of the same format first in the same interpreter (process-global parser caches primed). Sampling over bounded files (<= 14 records).",
                 note="Trusts the reference model bnpsim/models/text.py (plain int()/float()/split; cross-checked against the repo's example files in the self-test) and SimFS.",
                 tech=TECH + "store-model oracle (generated records) evaluated on every chunk-schedule-induced batch composition"),
-    "C12": dict(engine="streamsim", cat="exploration", ref="§4 C12",
-                text="Seeded search over (genome of <= 4 contigs incl. prefix/underscore names, sequence of contig groups in any order with unknown/ignored names, chunking cut set, consumer pull pattern, PYTHONHASHSEED): conservation oracle — a completed evaluation delivered every input entry under its own contig in genome order, otherwise an error was raised. 17 library-driven consumers (compute single/tuple/dict, exhaustive for, writer, MultiStream, forbes/jaccard, left_join).",
+    "C12": dict(engine="syncsim", cat="exploration", ref="§4 C12",
+                text="Seeded search over (genome of <= 4 contigs incl. prefix/underscore names, sequence of contig groups in any order with unknown/ignored names, chunking cut set, consumer pull pattern, PYTHONHASHSEED): conservation oracle — a completed evaluation delivered every input entry under its own contig in genome order, otherwise an error was raised. 21 library-driven consumers (compute single/tuple/dict, exhaustive for, writer, MultiStream, forbes/jaccard, left_join, bedGraph track stream, track arithmetic, ChromosomeSize-table route, get_data/get_track_stream).",
                 note="Judges only library-driven pulling (a caller's own zip/break is a reach probe). Reference for numeric consumers is the same public function on the per-contig dict route.",
                 tech=TECH + "contig-order x cut-set x consumer-pull-pattern schedule with sampled PYTHONHASHSEED per worker; entry-conservation oracle over the delivered history"),
     "C15": dict(engine="iosim", cat="fault_enumeration", ref="§4 C15",
@@ -26,11 +26,11 @@ CLAIMED = {
                 note="The model's strict validator decides whether the corrupted file is malformed and which line offends; outcomes outside the classes the property lists (e.g. truncated FASTQ record) are counted, not judged.",
                 tech=TECH + "stored-byte corruption / torn-tail fault injection by violation class x record position, chunk-size sweep, must-raise + line-number-invariance oracle"),
     "C17": dict(engine="iosim", cat="exploration", ref="§4 C17",
-                text="Seeded search over FASTA files (1..8 records, any wrap width, full/short/one-base last lines, descriptions, CRLF and missing final newline at low weight) on simulated storage; index built by the library under a small chunk knob (multi-chunk offset accumulation) or supplied by an independent faidx model; every interval of short records enumerated, line-break-biased intervals sampled; .fai rows, whole contigs, interval batches (plain and string-encoded fast path), contig lengths and the Genome.from_file route compared with the model. One-shot EIO in a minority of runs.",
+                text="Seeded search over FASTA files (1..8 records, any wrap width, full/short/one-base last lines, descriptions, CRLF and missing final newline at low weight) on simulated storage; index built by the library under a small chunk knob (multi-chunk offset accumulation) or supplied by an independent faidx model; every interval of short records enumerated, line-break-biased intervals sampled; .fai rows, whole contigs, interval batches (plain and string-encoded fast path), contig lengths and the Genome.from_file route compared with the model. Results of earlier fetches are kept and re-compared after later fetches (no aliasing of returned batches). One-shot EIO in a minority of runs.",
                 note="Trusts bnpsim/models/fai.py (cross-checked against the shipped small_genome.fa.fai) and SimFS.",
                 tech=TECH + "chunk-knob-perturbed index construction + random-access seek/read over SimFS + one-shot EIO; substring oracle from an independent faidx model"),
     "C03": dict(engine="iosim", cat="exploration", ref="§4 C03",
-                text="Seeded search over write histories: rows of an in-memory table (all entry types the property lists, FASTA lengths around multiples of the wrap width) cut into pieces and written by successive write(table) / write(stream of pieces) calls, with close + reopen-append at piece boundaries, plain or gzip target, an interleaved second writer, and a one-shot EIO on a write. Oracles: prefix consistency after every step, final bytes == one write of the whole table (header exactly once), canonical layout per the reference model, read-back == table.",
+                text="Seeded search over write histories: rows of an in-memory table (all entry types the property lists, FASTA lengths around multiples of the wrap width) cut into pieces and written by successive write(table) / write(stream of pieces) calls, with close + reopen-append at piece boundaries, plain or gzip target, an interleaved second writer, and a one-shot EIO on a write. Oracles: prefix consistency after every step, final bytes == one write of the whole table (header exactly once), canonical layout per the reference model, read-back == table. Sources of the written table: built in memory, read eagerly, read lazily, slices/views; value extremes (63-bit integers, 19-digit floats, empty strings) at raised weight.",
                 note="Float text compared by value (rel 1e-6); an empty SAM optional-tags column may be written with or without a trailing tab; typed-INFO VCF tables are not generated (writing them raises, which is not silent).",
                 tech=TECH + "writer actors with restart (close/reopen-append) and EIO faults over SimFS; prefix-consistency invariant + single-write refinement oracle"),
     "C11": dict(engine="streamsim", cat="exploration", ref="§4 C11",
@@ -42,11 +42,11 @@ CLAIMED = {
                 note="'Only the replaced columns change' is read column-wise: a column replaced in any operand of a concatenation may be re-serialised in all rows (compared by value). Lazy/eager agreement of pure observations is C05's subject. BAM sources are exercised under C16.",
                 tech=TECH + "operation-history scheduler on stateful lazy tables (raw buffer / parsed cache / set values) with a row model as oracle"),
     "C16": dict(engine="iosim", cat="exploration", ref="§4 C16",
-                text="Seeded search: BAM files produced by an independent struct-level encoder (0..6 references, names up to 254 chars, all nine CIGAR ops, odd/even/zero l_seq over the 16-letter code, qualities incl. the 0xFF convention, all tag types, unmapped and placed-unmapped records) with BGZF blocks cut at drawn offsets (inside records and header) on simulated storage; decoded whole and under a chunk-size sweep (k >= largest record), lazy and eager; interval/strand derivation; write-back (whole / mask / permutation / stream, lazy and eager source) decoded again by the independent decoder; one-shot EIO in 1/8 of runs.",
+                text="Seeded search: BAM files produced by an independent struct-level encoder (0..6 references, names up to 254 chars, all nine CIGAR ops, odd/even/zero l_seq over the 16-letter code, qualities incl. the 0xFF convention, all tag types, unmapped and placed-unmapped records) with BGZF blocks cut at drawn offsets (inside records and header) on simulated storage; decoded whole and under a chunk-size sweep (k >= largest record), lazy and eager; interval/strand derivation; write-back (whole / mask / permutation / stream, lazy and eager source) decoded again by the independent decoder; CIGAR lengths up to 2^28-1; write-back of a decoded table is decoded again by the library and compared field by field; one-shot EIO in 1/8 of runs.",
                 note="Trusts bnpsim/models/bam.py (validated against the repo's example .bam/.sam twins: byte-exact re-encoding). Chunk sizes below the largest record are probed, not judged.",
                 tech=TECH + "BGZF member-layout x chunk-size schedule over SimFS + EIO fault; independent spec-level encoder/decoder as oracle"),
     "C05": dict(engine="lazysim", cat="exploration", ref="§4 C05",
-                text="Seeded search: the same operation history (len, field access, slice/mask/integer-list/single index, concatenate, replace, tolist, write; <= 12 ops, whole or chunked origin) is run in lock-step on the lazily and the eagerly read twin of a canonical generated file; every step must give equal values / equal written bytes or fail in both, and every variable is observed (len, all fields, written bytes) in both worlds at the end.",
+                text="Seeded search: the same operation history (len, field access, slice/mask/integer-list/single index, concatenate, replace, tolist, write; <= 12 ops, whole or chunked origin) is run in lock-step on the lazily and the eagerly read twin of a canonical generated file; every step must give equal values / equal written bytes or fail in both, and every variable is observed (len, all fields, written bytes) in both worlds at the end. Twin formats: BED3/6/12, bedGraph, narrowPeak, SAM, VCF plain and typed INFO, FASTQ, FASTA, and BAM (lazy vs eager decode of the same BGZF bytes); attribute assignment is one of the operations.",
                 note="Canonical sources only (LF, repr floats, no '.' placeholders, no extra columns) so that C04's intended lazy/eager difference cannot appear; exceptions compare as raised / not raised.",
                 tech=TECH + "lock-step twin execution of operation histories on lazy vs eager tables (step-wise equality oracle)"),
     "C20": dict(engine="lazysim", cat="exploration", ref="§4 C20",
@@ -101,8 +101,10 @@ def main():
              "kind_free_text": "reader/writer actors over SimFS (in-memory file system with event log and fault injection), seeded chunk-size scheduler"},
             {"name": "lazysim", "path": "bnpsim/engines/lazysim.py", "serves_properties": ["C04", "C05", "C20"],
              "kind_free_text": "operation histories on lazily read tables with eager twins and a row model"},
-            {"name": "streamsim", "path": "bnpsim/engines/streamsim.py", "serves_properties": ["C11", "C12"],
-             "kind_free_text": "chunk-boundary (cut set) scheduler and consumer pull patterns for streams and computation graphs"},
+            {"name": "streamsim", "path": "bnpsim/engines/streamsim.py", "serves_properties": ["C11"],
+             "kind_free_text": "chunk-boundary (cut set) scheduler for streams and computation graphs"},
+            {"name": "syncsim", "path": "bnpsim/engines/syncsim.py", "serves_properties": ["C12"],
+             "kind_free_text": "contig-group order x cut set x consumer pull pattern scheduler for genome-synchronised streams, per-run PYTHONHASHSEED"},
         ],
         "checks": checks,
         "not_applicable": na,
